@@ -477,7 +477,42 @@ def rule_V10(ctx, rule: str = "V10") -> None:
         ctx.proved(rule, name, mod.loc(fn), f"{len(paths)} paths, {n_one_sided} one-sided ones compare with the default")
 
 
+def rule_V11(ctx, rule: str = "V11") -> None:
+    """pickling goes through the bytes of the message on every path: __reduce__ hands the unpickler something that is built
+    from bytes(self) - a path that returns the bare class loses what only the encoding carries (a oneof member selected at its
+    default, a present-but-empty child: bool(message) is False for both)"""
+    mod = ctx.repo.mod(M_INIT)
+    if not mod.has("Message.__reduce__"):
+        ctx.proved(rule, "__reduce__:through-the-encoding", M_INIT, "no __reduce__: the default protocol copies the instance state")
+        return
+    fn = mod.func("Message.__reduce__")
+    ctx.analysed("Message.__reduce__")
+    paths = Interp(mod, fork_ifexp=True).run(fn)
+    ctx.count(len(paths))
+    bad = None
+    n = 0
+    for p in paths:
+        if p.outcome != "return" or p.value is None:
+            continue
+        n += 1
+        carries = any(t[0] == "call" and ((dotted(t[1]) == "bytes" and t[2] == (N("self"),)) or dotted(t[1]) in ("self.__bytes__", "self.SerializeToString", "self.__getstate__", "self.dump"))
+                      for t in _walk(p.value))
+        if not carries:
+            bad = bad or p
+    name = "__reduce__:through-the-encoding"
+    if bad:
+        ctx.refuted(rule, name, show(bad.value)[:80], mod.loc(fn), f"on {val_text(bad.valuation)} __reduce__ returns {show(bad.value)}, which does not carry bytes(self): whatever the truth test "
+                    "on that path ignores (the selection of a oneof member that holds its default, presence of an empty child) is lost by a pickle round trip",
+                    "pickle.loads(pickle.dumps(M(a=0)))  # a: oneof member")
+    elif not n:
+        ctx.inconclusive(rule, name, "no returning path", mod.loc(fn))
+    else:
+        ctx.proved(rule, name, mod.loc(fn), f"{n} returning paths, each built from bytes(self)")
+
+
 def run(ctx) -> None:
+    ctx.rules_run += ["V11"]
+    rule_V11(ctx)
     ctx.rules_run.append("V10")
     rule_V10(ctx)
     for name, fn in (("V9", rule_V9), ("V1", rule_V1), ("V1b", rule_V1b), ("V2", rule_V2), ("V3", rule_V3), ("V4", rule_V4), ("V5", rule_V5), ("V6", rule_V6), ("D3", presence.rule_D3), ("V7", presence.rule_V7), ("V8", rule_V8)):
